@@ -1,4 +1,5 @@
 import EvyV.Model.Pratt
+import EvyV.Model.PrattW
 /-
 Driver component `pratt`: request `pratt <token type names>` (operands as `a`), answer: the tree the
 parser model returns and the number of tokens left, or NONE.
@@ -45,5 +46,24 @@ def handle (ws : List String) : String :=
   match parse ts with
   | some (e, rest) => s!"TREE {rest.length} {render e}"
   | none => "NONE"
+
+/-- `prattw <mode> <tokens>`: tokens as for `pratt`, a leading `_` = whitespace before the token;
+mode `0`: one expression outside a whitespace-sensitive context, `args`: parseExprList -/
+def wtokOf (i : Nat) (w : String) : WTok :=
+  if w.startsWith "_" then ⟨true, tokOf i (w.drop 1).toString⟩ else ⟨false, tokOf i w⟩
+
+def handleW (ws : List String) : String :=
+  match ws with
+  | mode :: rest =>
+    let ts := (rest.zipIdx).map (fun (w, i) => wtokOf i w)
+    if mode == "args" then
+      match argsW (ts.length + 1) ts with
+      | some es => "ARGS " ++ " | ".intercalate (es.map render)
+      | none => "NONE"
+    else
+      match parseW false ts with
+      | some (e, r) => s!"TREE {r.length} {render e}"
+      | none => "NONE"
+  | [] => "bad-op"
 
 end EvyV.PrattDrv
